@@ -70,7 +70,15 @@ pub enum Op {
     Poll { fut: u32 },
     MkStream { fut: u32, slot: u32, items: u32, pending_first: bool, tag: String },
     PollNext { fut: u32 },
-    MkSink { fut: u32, slot: u32, tag: String, pending_first: bool },
+    MkSink {
+        fut: u32,
+        slot: u32,
+        tag: String,
+        pending_first: bool,
+        /// poll_ready, start_send and poll_flush of the inner sink return Err
+        #[serde(default)]
+        failing: bool,
+    },
     SinkReady { fut: u32 },
     SinkSend { fut: u32 },
     SinkFlush { fut: u32 },
@@ -92,6 +100,11 @@ pub enum Op {
     /// drop all guards opened by FillScopes
     Unfill,
     BusyWait { micros: u64 },
+    /// `set_reporter` again, with the same configuration and an equivalent reporter
+    SetReporter,
+    /// Builds `Event::new(name)` now and keeps it; a later AddEvent / LocalAddEvent with the same
+    /// name (names start with "pre.") records that value instead of building a fresh one.
+    BuildEvent { name: String },
     /// `Span::root(name, SpanContext::random())` (also exercises `SpanContext::default()`)
     RootRandom { slot: u32, name: String },
     /// `TraceId::random()`, `SpanId::random()`, `SpanContext::random()`, `SpanContext::default()`
@@ -218,7 +231,7 @@ impl Op {
             Op::Poll { fut } => format!("poll(f{fut})"),
             Op::MkStream { fut, slot, items, .. } => format!("f{fut}=stream.in_span(#{slot},items={items})"),
             Op::PollNext { fut } => format!("next(f{fut})"),
-            Op::MkSink { fut, slot, .. } => format!("f{fut}=sink.in_span(#{slot})"),
+            Op::MkSink { fut, slot, failing, .. } => format!("f{fut}={}sink.in_span(#{slot})", if *failing { "failing-" } else { "" }),
             Op::SinkReady { fut } => format!("ready(f{fut})"),
             Op::SinkSend { fut } => format!("send(f{fut})"),
             Op::SinkFlush { fut } => format!("flush(f{fut})"),
@@ -238,6 +251,8 @@ impl Op {
             Op::FillLocalSpans { leave } => format!("filllocals(leave={leave})"),
             Op::Unfill => "unfill".into(),
             Op::BusyWait { micros } => format!("busy({micros}us)"),
+            Op::SetReporter => "set_reporter".into(),
+            Op::BuildEvent { name } => format!("build-event:{name}"),
             Op::Warm => "warm".into(),
             Op::RootRandom { slot, name } => format!("root#{slot}:{name}(random)"),
             Op::RandomIds => "random-ids".into(),
